@@ -222,6 +222,8 @@ class SimFS(object):
         self.fail_reads = None
         self.write_events = 0
         self.fail_writes = None
+        self.open_events = 0          # library open() calls on simulated paths
+        self.fail_opens = None        # {k}: the k-th such open raises EMFILE / EACCES (descriptor table full, unreadable file)
         self.faults_fired = {}
         self.short_rng = random.Random(short_seed) if short_seed is not None else None
 
@@ -253,6 +255,13 @@ class SimFS(object):
             return builtins.open(path, mode, *a, **kw)    # RealFS backend: the real file system
         if 'b' not in mode:
             raise ValueError('SimFS only opens binary files')
+        k = self.open_events
+        self.open_events += 1
+        if self.fail_opens is not None and k in self.fail_opens:
+            self.faults_fired['open-fails'] = self.faults_fired.get('open-fails', 0) + 1
+            if name.endswith('_index'):
+                raise PermissionError(errno.EACCES, 'Permission denied (injected)', name)
+            raise OSError(errno.EMFILE, 'Too many open files (injected)', name)
         if 'r' in mode:
             if name not in self.files:
                 raise FileNotFoundError(errno.ENOENT, 'No such file or directory', name)
